@@ -58,6 +58,48 @@ class Frag:
             except exprval.Unknown:
                 return None
             return self.sval(br) if br is not None else None
+        if k == "match" and C.strip(e["s"]).get("k") == "tup" and all(isinstance(a_["pat"], dict) and a_["pat"].get("k") in ("tuple", "wild", "bind") for a_ in e["arms"]):
+            # `match (flag, abi) { (false, _) => .., (true, Abi::X) => .. }`: component-wise, with unknown components matching "maybe"
+            comps = []
+            for c_ in C.strip(e["s"])["a"]:
+                try:
+                    comps.append(exprval.bev(c_, self.env))
+                except exprval.Unknown:
+                    comps.append(None)
+
+            def pm(p_, v_):
+                """True / False / None (maybe)"""
+                while isinstance(p_, dict) and p_.get("k") == "ref":
+                    p_ = p_.get("sub")
+                if not isinstance(p_, dict) or p_.get("k") in ("wild", "bind", "rest"):
+                    return True
+                if v_ is None:
+                    return None
+                if p_.get("k") == "lit":
+                    return p_.get("v") == v_
+                names = [(x or "").split("::")[-1] for x in [p_.get("v")] + [a_.get("v") for a_ in (p_.get("alts") or [])] if x]
+                return (v_ in names) if names else None
+            alts = []
+            for arm in e["arms"]:
+                subs = arm["pat"].get("sub") or [] if arm["pat"].get("k") == "tuple" else []
+                res = [pm(subs[i_] if i_ < len(subs) else None, comps[i_]) for i_ in range(len(comps))]
+                if any(r_ is False for r_ in res):
+                    continue
+                if C.diverges(arm["b"]) or C.panic_macro_of(arm["b"]):
+                    if all(r_ is True for r_ in res):
+                        break
+                    continue
+                x = self.sval(arm["b"])
+                if all(r_ is True for r_ in res):
+                    if not alts:
+                        return x
+                    alts.append(x)
+                    break
+                alts.append(x)
+            flat = []
+            for x in alts:
+                flat += x.alts if isinstance(x, Alt) else ([x] if x is not None else [])
+            return Alt(flat) if flat else None
         if k == "match":
             try:
                 v = exprval.bev(e["s"], self.env)
